@@ -258,6 +258,11 @@ def run(ctx):
     if manual is not None:
         return _retry_manual(ctx, b, manual)
     inner = [(bb, t) for bb, t in b.calls() if callee_is(t, 'client::stub::Stub::call')]
+    if not inner:
+        for bb, t in b.calls():
+            h = F.callee_fn(t)
+            if h is not None and any(callee_is(t2, 'client::stub::Stub::call') for x in F.with_descendants(h) for _, t2 in x.calls()):
+                raise CannotDecide('the retry loop delegates the attempt to the helper %s: the loop rules are stated over the loop\'s own body' % h.npath)
     policy = [(bb, t) for bb, t in b.calls() if callee_is(t, 'Fn::call', 'FnMut::call_mut', 'FnOnce::call_once') and not b.blocks[bb]['term'].get('expn')]
     policy_terms = {}
     for bb, t in policy:
